@@ -9,6 +9,14 @@ CHECKS = {
              note="Trusted: TLC, Go's testing/synctest fake clock, the JSON projection in harness/breaker_test.go. Bounds: depth 4-5 (quick) / 6-7 (thorough), thresholds <= 4, RecordResult/RecordError classification is covered by C12.",
              ref="4 C03"),
 }
+CHECKS["C05"] = dict(technique="TLA+ spec (specs/Limiter.tla): code-shaped limiter operators vs the property's definitional earliest-grant model, refinement model-checked by TLC; every TLC-enumerated history replayed on real limiters (spec->impl conformance, expected waits from the definition) under synctest virtual time",
+  text="TLC checks on every history up to depth D that the code-shaped smooth/bursty acquire operators return exactly the wait the definitional model (earliest instant respecting one-per-slot / M-per-period and request order) prescribes, that k-at-once equals k singles, that refusals are no-ops and that the slot/period bound holds on the grant log; every enumerated history (Try/Reserve/TryReserve/blocking Acquire/executions through the policy, ticks on and off boundaries, long idle gaps) is replayed against real limiters and each returned wait / refusal / blocking duration compared with the definition's answer.",
+  note="Trusted: TLC, testing/synctest clock (the limiter's stopwatch is time.Since), harness projection. Bounds: 6 configurations, depth 4 (quick) / 6 (thorough) exhaustive + random histories of length 40-100; single caller (concurrent callers: see C14).",
+  ref="4 C05")
+CHECKS["C12"] = dict(technique="TLA+ spec of the documented rule (specs/Classify.tla); TLC enumerates the complete truth table (specs/ClassifyTable.tla) and checks sanity theorems; one implementation test per row through fallback, retry, breaker, abort and hedge-cancel",
+  text="The classification rule is a pure function; the spec is the rule as documented. TLC enumerates every row (all sets of <= 3-4 registrations of 9 x 3 results x all error terms to depth 1-2 built from sentinels, value/pointer-receiver types, %w wrapping, a custom wrapping type and errors.Join) and each row is executed against the real policies in five observation ways. Exhaustive over the stated table.",
+  note="Trusted: TLC, the term<->error construction in harness/classify_test.go. AbortOnResult/CancelOnResult against an outcome that also carries an error: both verdicts accepted (statement not explicit).",
+  ref="4 C12")
 PENDING = {}
 def main():
     checks = []
